@@ -342,10 +342,20 @@ TextFirstOK(res, L, C, trk, k) ==
      /\ Len(res) = Min2(k, Cardinality(L))
      /\ TopK(SubSeq(res, 1, n), C, trk, k)
      /\ \A i \in (n + 1)..Len(res) : res[i] \notin C
-FusionOK(mode, res, L, C, vrk, trk, k) ==
+\* 0 < alpha < 1, any k -- the late-fusion rule of searchWithFusion: the vector side contributes its k nearest
+\* (allowed) documents, the text side EVERY (allowed) candidate; a document of that pool is scored
+\*   alpha * 1/(1+d) [only if it is among the k nearest]  +  (1-alpha) * bm25/max [only if it is a candidate]
+\* (max over all allowed candidates) and the k best of the pool are returned.  The pool is decided here; the real-valued
+\* score enters as the pre-order frk (dense rank of the score the harness evaluated from the specification's integers).
+\* For k >= |L| the pool is L and the score is the plain formula alpha/(1+d) + (1-alpha)*bm25/max.
+VecTopK(L, vrk, k) == {d \in L : Cardinality({x \in L : vrk[x] < vrk[d]}) < k}
+FusionPool(L, C, vrk, k) == VecTopK(L, vrk, k) \cup C
+HybridOK(res, L, C, vrk, frk, k) == TopK(res, FusionPool(L, C, vrk, k), frk, k)
+FusionOK(mode, res, L, C, vrk, trk, frk, k) ==
   CASE mode = "textonly" -> TextOnlyOK(res, C, trk, k)
     [] mode = "alpha1"   -> VectorOnlyOK(res, L, vrk, k)
     [] mode = "alpha0"   -> TextFirstOK(res, L, C, trk, k)
+    [] mode = "hybrid"   -> HybridOK(res, L, C, vrk, frk, k)
 
 (***************************************************************************)
 (* Model-checking plumbing: bounds, view, corpus channel                   *)
